@@ -58,8 +58,53 @@ StepOk(nd) == IsStep(nd) /\ PrevStep(nd) /\ nd.res.ok
 C18KeeperNonNegative(nd) == StepOk(nd) => LLe(Owed(Nd(nd.parent).st), Owed(nd.st)) /\ LLe(Nd(nd.parent).st.debtL, nd.st.debtL)
 C18KeeperZeroTime(nd)    == StepOk(nd) /\ nd.args.dt = 0 => LEq(Owed(Nd(nd.parent).st), Owed(nd.st))
 
+(* ---- frequent triggering: the triggers of one epoch against ONE accrual over the whole epoch ---- *)
+(* An epoch is a maximal sequence of consecutive triggers on one position that accrue through the same function  *)
+(* on the same principal at the same rate (args.fn / P / r are read from the real state before each trigger).     *)
+(* st.single is the REAL accrual function evaluated once for (P, r, elapsed time of the epoch). The statement:     *)
+(* "accruing over consecutive intervals on the same principal never yields more in total than a single accrual     *)
+(* over the combined interval beyond rounding in the last stored decimal place, so triggering interest            *)
+(* calculation more often cannot make a position owe more" - owed = booked units + carried fraction.              *)
+EpochMax == 1800000000
+RECURSIVE EpT(_), EpK(_), EpBase(_), EpIv(_)
+SameAccrual(nd) == /\ IsStep(nd) /\ PrevStep(nd) /\ IsStep(Nd(nd.parent))
+                   /\ Nd(nd.parent).args.fn = nd.args.fn /\ Nd(nd.parent).args.P = nd.args.P /\ Nd(nd.parent).args.r = nd.args.r
+(* The first trigger that sees a (function, principal, rate) settles whatever was pending before; the state AFTER it is  *)
+(* the base line. T = time elapsed since the base line, k = triggers since then (one evaluation of the parent per level). *)
+EpT(i) == LET nd == Nd(i) IN
+          IF ~SameAccrual(nd) THEN 0
+          ELSE LET tp == EpT(nd.parent) IN IF tp <= EpochMax - nd.args.dt THEN tp + nd.args.dt ELSE 0
+Cont(i)    == SameAccrual(Nd(i)) /\ EpT(Nd(i).parent) <= EpochMax - Nd(i).args.dt
+EpK(i)     == IF Cont(i) THEN EpK(Nd(i).parent) + 1 ELSE 0
+EpBase(i)  == IF Cont(i) THEN EpBase(Nd(i).parent) ELSE i
+(* largest weight ceil(1/index) among the triggers since the base line *)
+LMax(a, b) == IF LLe(a, b) THEN b ELSE a
+EpIv(i)    == IF Cont(i) THEN (IF EpK(i) = 1 THEN Nd(i).args.ivL ELSE LMax(EpIv(Nd(i).parent), Nd(i).args.ivL)) ELSE <<1>>
+ConfEpoch(i) == IsStep(Nd(i)) /\ PrevStep(Nd(i)) =>
+   /\ Nd(i).args.T = EpT(i) /\ Nd(i).args.k = EpK(i)
+   /\ LLe(LE18, LMul(Nd(i).args.idxL, Nd(i).args.ivL))                 \* iv * index >= 1
+EpochOk(i) == LET nd == Nd(i) IN IsStep(nd) /\ PrevStep(nd) /\ EpK(i) >= 1 /\ nd.args.T = EpT(i) /\ nd.args.k = EpK(i)
+                                 /\ LLe(LE18, LMul(nd.args.idxL, nd.args.ivL)) /\ Ok(nd.st.single) /\ NonNeg(nd.st.single)
+(* per trigger: one unit in the last stored place of each stored per-unit factor (4P+1, DESIGN section 5); on the index   *)
+(* path the stored index is divided by, so its last place weighs ceil(1/index) in the factor that multiplies P             *)
+EpSlack(i) == LMulSmall(LAdd(LMulSmall(LMul(Nd(i).args.PL, EpIv(i)), 4), <<1>>), EpK(i))
+C18KeeperSubAdditiveExact(i) == EpochOk(i) =>
+   LET nd == Nd(i) IN LLe(Owed(nd.st), LAdd(LAdd(Owed(Nd(EpBase(i)).st), nd.st.single.vL), EpSlack(i)))
+(* the same with 10^-6 of the single accrual allowed (bounds the float-path finding; a re-charged interval is far outside) *)
+C18KeeperSubAdditiveBound(i) == EpochOk(i) =>
+   LET nd == Nd(i) IN LLe(LMulSeq(Owed(nd.st), E6),
+                          LAdd(LAdd(LMulSeq(Owed(Nd(EpBase(i)).st), E6), LMulSeq(nd.st.single.vL, <<101, 9901>>)), LMulSeq(EpSlack(i), E6)))
+
+(* one trigger books no more than ONE accrual of the function over the time elapsed since the previous trigger on the    *)
+(* position (st.single0 = the real function at (P, r, dt)); with dt = 0 this is "zero when no time has elapsed"          *)
+PrevSettled(nd) == PrevStep(nd) /\ (Nd(nd.parent).a = "Open" \/ (IsStep(Nd(nd.parent)) /\ Nd(nd.parent).res.ok))
+ElapsedOk(nd) == StepOk(nd) /\ PrevSettled(nd) /\ Ok(nd.st.single0) /\ NonNeg(nd.st.single0) /\ LLe(LE18, LMul(nd.args.idxL, nd.args.ivL))
+C18KeeperElapsed(nd) == ElapsedOk(nd) =>
+   LLe(Owed(nd.st), LAdd(LAdd(Owed(Nd(nd.parent).st), nd.st.single0.vL), LAdd(LMulSmall(LMul(nd.args.PL, nd.args.ivL), 4), <<1>>)))
+
 Formulas == <<"Conf_Mono", "Conf_Split", "Conf_Tracker", "C18_NonNegative", "C18_ZeroAtZeroTime", "C18_Monotone",
-              "C18_SubAdditiveExact", "C18_SubAdditiveBound", "C18_KeeperNonNegative", "C18_KeeperZeroTime">>
+              "C18_SubAdditiveExact", "C18_SubAdditiveBound", "C18_KeeperNonNegative", "C18_KeeperZeroTime",
+              "Conf_Epoch", "C18_KeeperSubAdditiveExact", "C18_KeeperSubAdditiveBound", "C18_KeeperElapsed">>
 Holds(f, i) ==
   LET nd == Nd(i) IN
   CASE f = "Conf_Mono" -> ConfMono(nd)
@@ -72,6 +117,10 @@ Holds(f, i) ==
     [] f = "C18_SubAdditiveBound" -> C18SubAdditiveBound(nd)
     [] f = "C18_KeeperNonNegative" -> C18KeeperNonNegative(nd)
     [] f = "C18_KeeperZeroTime" -> C18KeeperZeroTime(nd)
+    [] f = "Conf_Epoch" -> ConfEpoch(i)
+    [] f = "C18_KeeperElapsed" -> C18KeeperElapsed(nd)
+    [] f = "C18_KeeperSubAdditiveExact" -> C18KeeperSubAdditiveExact(i)
+    [] f = "C18_KeeperSubAdditiveBound" -> C18KeeperSubAdditiveBound(i)
 
 Judge == \A k \in 1..Len(Formulas) : Holds(Formulas[k], cur) \/ PrintT(<<"FAIL", Formulas[k], cur>>)
 Count(Pred(_)) == Cardinality({i \in 1..NLog : Pred(Nd(i))})
@@ -83,7 +132,15 @@ ZeroTime(nd)     == IsMono(nd) /\ nd.args.lo.t = 0 /\ Ok(nd.st.lo)
 Failed(nd)       == (IsMono(nd) /\ (~Ok(nd.st.lo) \/ ~Ok(nd.st.hi))) \/ (IsSplit(nd) /\ ~Ok(nd.st.f12))
 KeeperZero(nd)   == StepOk(nd) /\ nd.args.dt = 0
 KeeperGrew(nd)   == StepOk(nd) /\ ~LEq(Owed(Nd(nd.parent).st), Owed(nd.st))
-Stats == PrintT(<<"STATS", [nodes |-> NLog, mono |-> Count(MonoChecked), monoStrict |-> Count(MonoStrict), splits |-> Count(SplitChecked),
+(* consecutive sub-unit accruals: two triggers in a row, time elapsed, nothing booked, only the carried fraction moved *)
+SubUnitStep(nd) == StepOk(nd) /\ nd.args.dt > 0 /\ LEq(Nd(nd.parent).st.debtL, nd.st.debtL) /\ ~LEq(Nd(nd.parent).st.frac.vL, nd.st.frac.vL)
+SubUnitPair(nd) == SubUnitStep(nd) /\ IsStep(Nd(nd.parent)) /\ SubUnitStep(Nd(nd.parent))
+SubUnitOf(kind) == Cardinality({i \in 1..NLog : SubUnitPair(Nd(i)) /\ Nd(i).args.kind = kind /\ EpochOk(i)})
+EpochLong == Cardinality({i \in 1..NLog : EpochOk(i) /\ EpK(i) >= 2})
+ViaCount(v) == Cardinality({i \in 1..NLog : StepOk(Nd(i)) /\ Nd(i).args.via = v})
+Stats == PrintT(<<"STATS", [nodes |-> NLog, epochs2 |-> EpochLong, subUnitVault |-> SubUnitOf("vault"), subUnitLocker |-> SubUnitOf("locker"),
+                           subUnitLend |-> SubUnitOf("lend"), subUnitBorrow |-> SubUnitOf("borrow"),
+                           elapsedChecked |-> Count(ElapsedOk), viaRateUpdate |-> ViaCount("rate-update"), viaDeposit |-> ViaCount("deposit"), mono |-> Count(MonoChecked), monoStrict |-> Count(MonoStrict), splits |-> Count(SplitChecked),
                            splitsFloat |-> Count(SplitFloat), zeroTime |-> Count(ZeroTime), fnErrors |-> Count(Failed),
                            keeperSteps |-> Count(StepOk), keeperZeroDt |-> Count(KeeperZero), keeperGrew |-> Count(KeeperGrew)]>>)
 AllSeen == Stats /\ TLCGet("stats").distinct = NLog
